@@ -258,6 +258,13 @@ public:
             shm->nsamples++;
             sample_stride *= 16;
         }
+        // the most recent case of every 65536 goes into the extra slot (typically a deep one)
+        if ((shm->c[C_EVAL] & 0xFFFF) == 0xFFFF)
+        {
+            std::string s = desc_fn(desc_ctx);
+            strncpy(shm->samples[NSAMP], s.c_str(), SAMPLE_MAX - 1);
+            shm->samples[NSAMP][SAMPLE_MAX - 1] = 0;
+        }
         return true;
     }
 
@@ -469,6 +476,7 @@ public:
     std::map<std::string, Fail> fails;
     uint64_t fail_overflow = 0;
     std::vector<std::string> samples;
+    std::vector<std::string> late_samples;
     std::vector<Json> rounds;
     bool exhaustive = true;
     int fatal_restarts = 0;
@@ -675,6 +683,8 @@ public:
             }
             for (uint32_t k = 0; k < s->nsamples; ++k)
                 samples.push_back(s->samples[k]);
+            if (s->samples[NSAMP][0] && late_samples.size() < 4)
+                late_samples.push_back(s->samples[NSAMP]);
             if (s->deadline_hit)
                 dl = true;
             munmap(s, sizeof(WorkerShm));
@@ -817,6 +827,8 @@ public:
         std::vector<std::string> smp;
         for (size_t i = 0; i < samples.size() && smp.size() < 10; i += std::max<size_t>(1, samples.size() / 10))
             smp.push_back(samples[i]);
+        for (auto& l : late_samples)
+            smp.push_back(l);
         if (smp.empty())
             smp.push_back("(no case executed)");
         std::vector<std::pair<std::string, Json>> cov = {
